@@ -50,13 +50,13 @@ pub fn plan_for(prop: &str, tier: &str) -> Option<Plan> {
             &["partial_write", "cancel_at_stall", "cancel_at_read_or_timer"],
         ),
         "C02" => (
-            vec![prog(Qos1, k(50_000)), prog(General, k(20_000)), prog(Sessions, k(15_000)), prog(Aging, k(500))],
+            vec![prog(Qos1, k(50_000)), prog(General, k(20_000)), prog(Sessions, k(15_000)), prog(Aging, k(500)), enumerated(Scenario::FaultEnum(1), 241_920)],
             "exploration",
             "QoS 1 heavy programs with connection loss at random I/O calls (errors, EOF, drop, forget, cancelled connects), 1..10 resumed reconnects, withheld/reordered/early acks; ledger oracle per message: same id, byte-identical except DUP, DUP set after an earlier complete transmission, once per connection, none after PUBACK, acceptance order. non-trivial = at least one retransmission on a later connection was observed",
             &["retransmission_seen"],
         ),
         "C03" => (
-            vec![prog(Qos2, k(50_000)), prog(General, k(20_000)), prog(Quota, k(10_000)), prog(Aging, k(500))],
+            vec![prog(Qos2, k(50_000)), prog(General, k(20_000)), prog(Quota, k(10_000)), prog(Aging, k(500)), enumerated(Scenario::FaultEnum(1), 241_920)],
             "exploration",
             "1..8 concurrent QoS 2 exchanges, all PUBREC/PUBCOMP orders, failure codes, crashes between the four steps, repeated resumes; per-exchange state machine oracle incl. PUBREL replay order = PUBREC arrival order. non-trivial = a PUBREL was replayed on a later connection or a PUBLISH retransmitted",
             &["pubrel_replayed", "retransmission_seen"],
@@ -68,7 +68,7 @@ pub fn plan_for(prop: &str, tier: &str) -> Option<Plan> {
             &["inbound_dup_consumed", "inbound_qos2_duplicate_suppressed", "inbound_fills_rx_buffer", "pubrel_for_unknown_id"],
         ),
         "C05" => (
-            vec![prog(Sessions, k(50_000)), prog(General, k(20_000)), prog(Qos1, k(10_000)), prog(Qos2, k(10_000))],
+            vec![prog(Sessions, k(50_000)), prog(General, k(20_000)), prog(Qos1, k(10_000)), prog(Qos2, k(10_000)), enumerated(Scenario::FaultEnum(1), 241_920)],
             "exploration",
             "up to 12 connections with arbitrary session-present answers, rejected/garbled/cancelled handshakes in between and arbitrary in-flight state at each loss; oracle: clean-start and client id of every CONNECT, connect_event, nothing stale after a fresh session, everything unacknowledged replayed once before any new identifier-bearing packet, old handles invalidated. non-trivial = a session was resumed with requests in flight or a fresh session replaced one",
             &["resumed_with_inflight", "fresh_session"],
